@@ -167,7 +167,9 @@ pub(super) fn idls(
                 }
             }).collect_vec();
 
-            let inner = if account_set_defs.len() == 1 {
+            // Only a `#[single_account_set]` wrapper stands for its inner set. A regular struct keeps its
+            // definition (and its field's name) even when it has exactly one field.
+            let inner = if single_set_field.is_some() {
                 account_set_defs[0].clone()
             } else {
                 quote! {
